@@ -1,9 +1,10 @@
 (* C12 - str(query) is a faithful canonical form: it reparses to the same query.
 
    C12_roundtrip below proves the property for every well-typed, in-range query - any nesting of !, &&, ||, comparisons,
-   function calls and embedded filters - whose literals are strings, booleans, null and integers that survive repr() and
-   float() (lx_query, a decidable condition: evaluated on every generated query by the check; FLOAT literals are not
-   covered by the theorem and stay with the correspondence).  C12_filter_free_roundtrip is the earlier special case. *)
+   function calls and embedded filters - whose literals are strings, booleans, null, integers that survive repr() and
+   float(), and floats whose repr() is a text of the FLOAT token's shape that float() reads back as the same float
+   (lx_query, a decidable condition evaluated on every generated query by the check; that repr() of EVERY float has that
+   shape is a fact about the shortest-repr algorithm and is not proved).  C12_filter_free_roundtrip is the earlier special case. *)
 From JP Require Import Base.Json Model.Ast Model.Serialize Model.Api Spec.NormPath Spec.Sem Proofs.SerializeProofs Proofs.Reparse.
 
 (* Every query built from name, index, slice and wildcard selectors (any number per segment, at least one) in child and
